@@ -20,6 +20,11 @@ pub fn inject_socket(socket: Arc<dyn quinn::AsyncUdpSocket>) {
     INJECTED_SOCKET.with(|slot| *slot.borrow_mut() = Some(socket));
 }
 
+/// Drops a socket injected on this thread that no `Endpoint::new` consumed.
+pub fn clear_injected_socket() {
+    INJECTED_SOCKET.with(|slot| *slot.borrow_mut() = None);
+}
+
 pub(crate) fn take_injected_socket() -> Option<Arc<dyn quinn::AsyncUdpSocket>> {
     INJECTED_SOCKET.with(|slot| slot.borrow_mut().take())
 }
